@@ -17,8 +17,18 @@
 (* header/tables.go:177-192):                                              *)
 (*   RAll    streaming sources are read into memory first (io.ReadAll)     *)
 (*   RStep   one ReadAt of the plan: 6 bytes of the offset table, every    *)
-(*           16-byte record, one byte at the end of the last table, then   *)
-(*           the needed tables in chunks; the code returns the first error *)
+(*           16-byte record, one byte at the end of the last table (the    *)
+(*           "probe"), then the tables in chunks; the code returns the     *)
+(*           first error.  Every table has a class:                        *)
+(*             "dec"   decoded by a parser, which notices missing bytes    *)
+(*             "raw"   copied with io.ReadAll from a SectionReader (cvt,   *)
+(*                     fpgm, prep, gasp, hhea/hmtx/cmap/name bytes): the   *)
+(*                     end of a cut file is an ordinary EOF there, the     *)
+(*                     copy is silently short; a non-EOF error is returned *)
+(*             "skip"  never looked at (unknown tables)                    *)
+(*           so for raw/skip tables only the probe notices a cut.  With    *)
+(*           Probe = FALSE (the probe left out) TLC must find a violation  *)
+(*           of RTruncRejected: checks/C18.py runs that as a must-fail.    *)
 (*   RReturn everything read                                               *)
 (*   sources: "trunc" (file cut to k bytes: an access beyond it hits EOF)  *)
 (*            "failat" (an access touching an offset >= k fails)           *)
@@ -33,12 +43,13 @@ CONSTANTS MaxTables,  \* layouts have 1..MaxTables tables
           MaxLen,     \* table lengths 0..MaxLen
           WModes,     \* subset of {"exact", "atomic", "short"}
           RModes,     \* subset of {"trunc", "failat", "strunc", "sfail"}
-          Chunk       \* tables are read in pieces of at most Chunk bytes
+          Chunk,      \* tables are read in pieces of at most Chunk bytes
+          Probe       \* BOOLEAN: the reader probes the last byte of the last table
 
 VARIABLES side,   \* "w" | "r"
           lens,   \* the layout: sequence of table lengths (physical order)
           mode, k,
-          need,   \* reader: set of tables the font reader asks for
+          need,   \* reader: class of every table: "dec" | "raw" | "skip"
           pc,     \* next chunk / access of the plan
           acc,    \* writer: bytes accepted by the destination so far
           n,      \* writer: count the code has accumulated
@@ -67,8 +78,13 @@ WPlan == <<DirLen>> \o FlattenSeq([t \in 1..NT |->
 \* reader: the ReadAt calls <<offset, length>>
 Pieces(o, l) == [i \in 1..((l + Chunk - 1) \div Chunk) |-> <<o + (i - 1) * Chunk, Min2(Chunk, l - (i - 1) * Chunk)>>]
 LastEnd == Off(NT) + lens[NT]          \* end of the table with the largest offset (directory sanity probe)
-RPlan == << <<0, 6>> >> \o [i \in 1..NT |-> <<12 + 16 * (i - 1), 16>>] \o << <<LastEnd - 1, 1>> >>
-           \o FlattenSeq([t \in 1..NT |-> IF t \in need THEN Pieces(Off(t), lens[t]) ELSE <<>>])
+\* accesses are <<offset, length, class>>; the directory accesses behave like "dec"
+Hdr(a) == <<a[1], a[2], "dec">>
+RPlan == << Hdr(<<0, 6>>) >> \o [i \in 1..NT |-> Hdr(<<12 + 16 * (i - 1), 16>>)]
+           \o (IF Probe THEN << Hdr(<<LastEnd - 1, 1>>) >> ELSE <<>>)
+           \o FlattenSeq([t \in 1..NT |-> IF need[t] = "skip" THEN <<>>
+                           ELSE [i \in 1..Len(Pieces(Off(t), lens[t])) |->
+                                   <<Pieces(Off(t), lens[t])[i][1], Pieces(Off(t), lens[t])[i][2], need[t]>>]])
 
 Layouts == UNION {[1..c -> 0..MaxLen] : c \in 1..MaxTables}
 
@@ -76,7 +92,7 @@ Init == /\ lens \in Layouts
         /\ side \in (IF WModes = {} THEN {} ELSE {"w"}) \cup (IF RModes = {} THEN {} ELSE {"r"})
         /\ mode \in (IF side = "w" THEN WModes ELSE RModes)
         /\ k \in 0..Total
-        /\ need \in (IF side = "w" THEN {{}} ELSE SUBSET (1..NT))
+        /\ need \in (IF side = "w" THEN {<<>>} ELSE [1..NT -> {"dec", "raw", "skip"}])
         /\ pc = 1 /\ acc = 0 /\ n = 0 /\ err = FALSE /\ hit = FALSE /\ done = FALSE /\ loaded = FALSE
 
 ---------------------------------------------------------------------------
@@ -108,8 +124,10 @@ RAll == /\ side = "r" /\ ~done /\ Streaming /\ ~loaded
              ELSE loaded' = TRUE /\ UNCHANGED <<err, hit, done>>
         /\ UNCHANGED <<side, lens, mode, k, need, pc, acc, n>>
 
-\* does the access <<o, l>> fail?  (after RAll the memory copy has Min(k, Total) bytes)
-Fails(a) == a[2] > 0 /\ a[1] + a[2] > k /\ k < Total
+\* does the access <<o, l, class>> fail?  (after RAll the memory copy has Min(k, Total) bytes)
+\* A failing source returns an error to whoever reads; at the end of a cut file a raw copy just ends.
+Beyond(a) == a[2] > 0 /\ a[1] + a[2] > k /\ k < Total
+Fails(a)  == Beyond(a) /\ (mode = "failat" \/ a[3] = "dec")
 
 RStep == /\ side = "r" /\ ~done /\ (Streaming => loaded) /\ pc <= Len(RPlan)
          /\ IF Fails(RPlan[pc]) THEN err' = TRUE /\ hit' = TRUE /\ done' = TRUE /\ pc' = pc
